@@ -314,7 +314,7 @@ func c04Calls(ctx *Ctx) {
 			if ctx.R.Intn(10) == 0 {
 				t = genTy(ctx.R, 1, TyOpts{})
 			}
-			args[j] = c04RandomMarks(ctx, genVal(ctx.R, t, 3, c04ValOpts))
+			args[j] = c04RandomMarks(ctx, c04GenVal(ctx, t, 3))
 		}
 		cb := c04Callbacks[ctx.R.Intn(len(c04Callbacks))]
 		c04CallCase(ctx, ps, vp, cb[0], cb[1], ctx.R.Intn(4) == 0 && cb[1] == "const", args)
@@ -547,7 +547,30 @@ func c04ConvertCase(ctx *Ctx, v cty.Value, ty cty.Type) {
 	}
 }
 
+// c04ConvCorpus: witnesses of repaired defects (known_findings.json, status fixed); they must pass.
+func c04ConvCorpus(ctx *Ctx) {
+	nullS := cty.NullVal(cty.String).Mark("m1")
+	for _, c := range []struct {
+		v  cty.Value
+		ty cty.Type
+	}{
+		{cty.ListVal([]cty.Value{nullS}), cty.List(cty.Number)},                                                   // ab9d5ec conversionCollectionToList
+		{cty.ListVal([]cty.Value{cty.NumberIntVal(1), cty.NullVal(cty.Number).Mark("m2")}), cty.List(cty.String)}, // the same, as first reported
+		{cty.ListVal([]cty.Value{nullS}), cty.Set(cty.Number)},                                                    // conversionCollectionToSet
+		{cty.TupleVal([]cty.Value{nullS}), cty.Set(cty.String)},                                                   // conversionTupleToSet
+		{cty.TupleVal([]cty.Value{nullS, cty.StringVal("a")}), cty.List(cty.String)},                              // conversionTupleToList
+		{cty.MapVal(map[string]cty.Value{"a": nullS}), cty.Object(map[string]cty.Type{"a": cty.Number})},          // conversionMapToObject
+		{cty.ObjectVal(map[string]cty.Value{"a": nullS}), cty.Object(map[string]cty.Type{"a": cty.Number})},       // conversionObjectToObject
+		{cty.ObjectVal(map[string]cty.Value{"a": nullS, "b": cty.StringVal("x")}), cty.Map(cty.String)},           // conversionObjectToMap
+		{cty.MapVal(map[string]cty.Value{"a": nullS}), cty.Map(cty.Number)},                                       // conversionCollectionToMap
+	} {
+		c04ConvertCase(ctx, c.v, c.ty)
+		c04ConvertCase(ctx, c.v.Mark("m3"), c.ty)
+	}
+}
+
 func c04Convert(ctx *Ctx) {
+	c04ConvCorpus(ctx)
 	var base []cty.Value
 	base = append(base, c04CollBase...)
 	base = append(base, cty.NumberIntVal(1), cty.StringVal("1"), cty.StringVal("true"), cty.True, cty.UnknownVal(cty.String), cty.NullVal(cty.Number),
@@ -564,7 +587,7 @@ func c04Convert(ctx *Ctx) {
 	}
 	for i := 0; i < ctx.N(1500, 40000); i++ {
 		t := genTy(ctx.R, 3, TyOpts{Dyn: true})
-		v := c04RandomMarks(ctx, genVal(ctx.R, t, 3, c04ValOpts))
+		v := c04RandomMarks(ctx, c04GenVal(ctx, t, 3))
 		ts := c04Targets(ctx, v.Type())
 		c04ConvertCase(ctx, v, ts[ctx.R.Intn(len(ts))])
 		c04ConvertCase(ctx, v, mutateTy(ctx.R, v.Type(), TyOpts{Dyn: true, Opt: true}))
